@@ -149,10 +149,39 @@ type env struct {
 	store *wire.OpStore
 	unpub *wire.UnpubStore
 	pc    *wire.Client
+	// a second registered namespace with its own operation store (same CAS, same version numbers)
+	store2 *wire.OpStore
+	pc2    *wire.Client
+}
+
+// ns2 is the second namespace the node serves.
+const ns2 = "did:second"
+
+// nsProvider serves the protocol clients of both namespaces.
+type nsProvider struct{ e *env }
+
+func (p nsProvider) ForNamespace(n string) (protocol.Client, error) {
+	switch n {
+	case ns:
+		return p.e.pc, nil
+	case ns2:
+		return p.e.pc2, nil
+	}
+	return nil, fmt.Errorf("protocol client not found for namespace [%s]", n)
+}
+
+func (e *env) clientFor(n string) *wire.Client {
+	switch n {
+	case ns:
+		return e.pc
+	case ns2:
+		return e.pc2
+	}
+	return nil
 }
 
 func newEnv(c *Case) *env {
-	e := &env{cas: wire.NewMemCAS(), store: wire.NewOpStore(), unpub: wire.NewUnpubStore()}
+	e := &env{cas: wire.NewMemCAS(), store: wire.NewOpStore(), unpub: wire.NewUnpubStore(), store2: wire.NewOpStore()}
 	for a, b := range c.Files {
 		e.cas.Put(a, b)
 	}
@@ -173,11 +202,27 @@ func newEnv(c *Case) *env {
 		vs = append(vs, v)
 	}
 	e.pc = wire.NewClient(vs...)
+	var vs2 []protocol.Version
+	for _, g := range []uint64{c.MinGenesis, 100} {
+		p := wire.BaseProtocol()
+		p.GenesisTime = g
+		p.MultihashAlgorithms = []uint{uint(c.Code)}
+		v := wire.Build(p, wire.Deps{CAS: e.cas, OpStore: e.store2})
+		v.Provider = &stubProvider{real: v.Provider, dup: dup}
+		vs2 = append(vs2, v)
+	}
+	e.pc2 = wire.NewClient(vs2...)
 	return e
 }
 
 // run processes the sequence and returns the log of successful Put calls.
 func run(c *Case, fault string, k int) (puts [][]*operation.AnchoredOperation, casReads int64, putCalls, delCalls int, harnessErr string) {
+	puts, _, casReads, putCalls, delCalls, harnessErr = run2(c, fault, k)
+	return
+}
+
+// run2 is run, returning the write logs of both namespaces' stores.
+func run2(c *Case, fault string, k int) (puts, puts2 [][]*operation.AnchoredOperation, casReads int64, putCalls, delCalls int, harnessErr string) {
 	e := newEnv(c)
 	switch fault {
 	case "cas-read":
@@ -209,10 +254,11 @@ func run(c *Case, fault string, k int) (puts [][]*operation.AnchoredOperation, c
 	}
 	if c.Via == "direct" {
 		for _, t := range txns {
-			if t.Namespace != ns {
+			pc := e.clientFor(t.Namespace)
+			if pc == nil {
 				continue // no protocol client for that namespace
 			}
-			v, err := e.pc.Get(t.ProtocolVersion)
+			v, err := pc.Get(t.ProtocolVersion)
 			if err != nil {
 				continue
 			}
@@ -220,7 +266,7 @@ func run(c *Case, fault string, k int) (puts [][]*operation.AnchoredOperation, c
 		}
 	} else {
 		l := &ledger{ch: make(chan []txn.SidetreeTxn)}
-		sp := &sentinelProvider{inner: &wire.ClientProvider{NS: ns, C: e.pc}, seen: make(chan struct{}, 1)}
+		sp := &sentinelProvider{inner: nsProvider{e}, seen: make(chan struct{}, 1)}
 		o := observer.New(&observer.Providers{Ledger: l, ProtocolClientProvider: sp})
 		o.Start()
 		i := 0
@@ -250,7 +296,7 @@ func run(c *Case, fault string, k int) (puts [][]*operation.AnchoredOperation, c
 		}
 		o.Stop()
 	}
-	return e.store.Puts, e.cas.Reads, e.store.PutCalls(), e.unpub.DelAllCalls(), harnessErr
+	return e.store.Puts, e.store2.Puts, e.cas.Reads, e.store.PutCalls(), e.unpub.DelAllCalls(), harnessErr
 }
 
 // evalCase returns (kind, message, inconclusive).
@@ -267,7 +313,9 @@ func evalCase(c *Case) (string, string, string) {
 		puts := 0
 		for i, t := range c.Txns {
 			st := txn.SidetreeTxn{TransactionTime: t.Time, TransactionNumber: t.Number, AnchorString: t.Anchor, Namespace: ns, ProtocolVersion: t.Version}
-			if va, err := ea.pc.Get(t.Version); err == nil && nsOf(t) == ns {
+			if ca := ea.clientFor(nsOf(t)); ca == nil {
+				// unknown namespace: nothing is read
+			} else if va, err := ca.Get(t.Version); err == nil {
 				var ops []*operation.AnchoredOperation
 				var perr error
 				if pn := ev.Catch(func() { ops, perr = va.OperationProvider().GetTxnOperations(&st) }); pn != "" {
@@ -284,7 +332,9 @@ func evalCase(c *Case) (string, string, string) {
 				}
 			}
 			spans[i].readsFrom = int(reads) + 1
-			if vb, err := eb.pc.Get(t.Version); err == nil && nsOf(t) == ns {
+			if cb := eb.clientFor(nsOf(t)); cb == nil {
+				// unknown namespace
+			} else if vb, err := cb.Get(t.Version); err == nil {
 				_, _ = vb.TransactionProcessor().Process(st)
 			}
 			reads = eb.cas.Reads
@@ -296,9 +346,9 @@ func evalCase(c *Case) (string, string, string) {
 		}
 	}
 	var pn string
-	var puts [][]*operation.AnchoredOperation
+	var puts, puts2 [][]*operation.AnchoredOperation
 	var herr string
-	pn = ev.Catch(func() { puts, _, _, _, herr = run(c, c.Fault, c.K) })
+	pn = ev.Catch(func() { puts, puts2, _, _, _, herr = run2(c, c.Fault, c.K) })
 	if pn != "" {
 		return "C15/panic", "processing panicked: " + pn, ""
 	}
@@ -306,22 +356,43 @@ func evalCase(c *Case) (string, string, string) {
 		return "", "", herr
 	}
 	// expected log
-	var want [][]OpID
-	var wantTxn []int
+	var want, want2 [][]OpID
+	var wantTxn, wantTxn2 []int
 	for i := range c.Txns {
 		if len(expect[i]) == 0 {
 			continue
 		}
+		second := nsOf(c.Txns[i]) == ns2
 		faulted := false
 		switch c.Fault {
 		case "cas-read":
 			faulted = c.K >= spans[i].readsFrom && c.K <= spans[i].readsTo
 		case "store-put":
-			faulted = spans[i].put == c.K
+			faulted = !second && spans[i].put == c.K
 		}
-		if !faulted {
+		if faulted {
+			continue
+		}
+		if second {
+			want2 = append(want2, expect[i])
+			wantTxn2 = append(wantTxn2, i)
+		} else {
 			want = append(want, expect[i])
 			wantTxn = append(wantTxn, i)
+		}
+	}
+	// the second namespace's store: exactly its own good transactions, in order
+	if len(puts2) != len(want2) {
+		return "C15/store-log", fmt.Sprintf("the operation store of namespace %s received %d successful writes, expected %d (its good transactions %v); the first namespace's store received %d, expected %d; fault %s k=%d via %s; txns %s",
+			ns2, len(puts2), len(want2), wantTxn2, len(puts), len(want), c.Fault, c.K, c.Via, kinds(c)), ""
+	}
+	for wi, p := range puts2 {
+		var got []OpID
+		for _, op := range p {
+			got = append(got, OpID{string(op.Type), op.UniqueSuffix})
+		}
+		if !reflect.DeepEqual(got, want2[wi]) {
+			return "C15/store-log", fmt.Sprintf("write %d to the store of namespace %s holds %v, expected the operations of transaction %d: %v", wi, ns2, got, wantTxn2[wi], want2[wi]), ""
 		}
 	}
 	if len(puts) != len(want) {
@@ -384,7 +455,7 @@ func putSummary(puts [][]*operation.AnchoredOperation) string {
 var typeRank = map[string]int{"create": 0, "recover": 1, "update": 2, "deactivate": 3}
 
 func TestTransactionsWithFaults(t *testing.T) {
-	ev.Rule(chkTxn, "rapid sequences of 1-8 transactions: valid (files written by the real handler for a generated batch, possibly with repeated suffixes queued), unreadable (malformed anchor string, missing file, corrupt file), duplicate-carrying (stub provider returning one suffix twice), a protocol version the protocol client cannot resolve, a namespace without protocol client (runs of equal kinds and versions are frequent); distinct time / number / version / canonical / equivalent references; processed through the real Observer (drawn notification slicing, completion via a sentinel transaction) and directly through TxnProcessor.Process; for each sequence EVERY fault position is enumerated: each CAS read k, each OpStore.Put call k, each unpublished DeleteAll call k, plus the fault-free run; oracle (store-state): the log of successful atomic writes == one write per good, un-faulted transaction, in order, holding exactly the first operation per suffix, each stamped with the transaction's time, number, protocol version, canonical and equivalent references; nothing for bad transactions; non-trivial = a bad transaction followed by a good one, or a fault, or a duplicate suffix")
+	ev.Rule(chkTxn, "rapid sequences of 1-8 transactions: valid (files written by the real handler for a generated batch, possibly with repeated suffixes queued), unreadable (malformed anchor string, missing file, corrupt file), duplicate-carrying (stub provider returning one suffix twice), a protocol version the protocol client cannot resolve, a namespace without protocol client, a second registered namespace with its own operation store (runs of equal kinds and versions are frequent); distinct time / number / version / canonical / equivalent references; processed through the real Observer (drawn notification slicing, completion via a sentinel transaction) and directly through TxnProcessor.Process; for each sequence EVERY fault position is enumerated: each CAS read k, each OpStore.Put call k, each unpublished DeleteAll call k, plus the fault-free run; oracle (store-state): the log of successful atomic writes == one write per good, un-faulted transaction, in order, holding exactly the first operation per suffix, each stamped with the transaction's time, number, protocol version, canonical and equivalent references; nothing for bad transactions; non-trivial = a bad transaction followed by a good one, or a fault, or a duplicate suffix")
 	ev.Rapid(t, chkTxn, 150, 1500, func(t *rapid.T) {
 		code := rapid.SampledFrom([]uint64{asm.SHA256, asm.SHA512}).Draw(t, "hash")
 		c := &Case{Code: code, Files: map[string][]byte{}, MinGenesis: uint64(rapid.SampledFrom([]int{0, 10}).Draw(t, "minGenesis"))}
@@ -393,7 +464,7 @@ func TestTransactionsWithFaults(t *testing.T) {
 		p := wire.BaseProtocol()
 		p.MultihashAlgorithms = []uint{uint(code)}
 		for i := 0; i < n; i++ {
-			kind := rapid.SampledFrom([]string{"valid", "valid", "valid", "bad-anchor", "missing-file", "corrupt-file", "duplicates", "unknown-version", "unknown-namespace"}).Draw(t, "txnKind")
+			kind := rapid.SampledFrom([]string{"valid", "valid", "valid", "bad-anchor", "missing-file", "corrupt-file", "duplicates", "unknown-version", "unknown-namespace", "second-namespace", "second-namespace"}).Draw(t, "txnKind")
 			version := uint64(rapid.SampledFrom([]int{int(c.MinGenesis), 100}).Draw(t, "version"))
 			if kind == "unknown-version" && c.MinGenesis > 0 {
 				version = uint64(rapid.SampledFrom([]int{3, 5}).Draw(t, "unresolvableVersion"))
@@ -457,6 +528,11 @@ func TestTransactionsWithFaults(t *testing.T) {
 				}
 			case "unknown-namespace":
 				tx.Namespace = "did:othermethod"
+			case "second-namespace":
+				// a valid transaction of the second namespace the node serves: its operations belong in that
+				// namespace's own store
+				tx.Namespace = ns2
+				tx.Expect = included
 			}
 			for a, b := range files {
 				c.Files[a] = b
